@@ -7,7 +7,7 @@ RULE = ("traced runs, biased in {False,True}, matrix-valued lambda, repopulation
         "optimisation task is compared with two-pass statistics of the windows labelled k; non-trivial = completed run with >=2 rounds or a "
         "repopulation event; distinct by case hash")
 ASSUMPTIONS = ["task arguments observed through a class-level Pool.apply_async shim in the parent process"]
-SHARD_TIMEOUT = {"quick": 900, "thorough": 3400}
+SHARD_TIMEOUT = {"quick": 300, "thorough": 3400}
 MIX = {"single:small": 3, "single:general": 3, "single:repop": 3, "joint:joint": 1}
 PROPS = ("C12",)
 
